@@ -696,7 +696,7 @@ pub fn parts() -> Vec<Box<dyn PartDyn>> {
     vec![Box::new(Part::<Case> {
         name: "e2e",
         rule: "histories of up to 40 events (consume, deliver, client cancel with 0-3 deliveries sent before CancelOk, second cancel, drop (with or without a kept receiver), forget, server cancel nowait/not, client/server channel close, client/server connection close) over 1-3 channels, driven by one thread with FIFO barriers so the broker script is the single source of order; oracle: per consumer the receiver yields exactly the model's deliveries in order, one terminal naming the first cause, then disconnect; one Basic.Cancel per cancelled/dropped consumer, CancelOk per server cancel iff not nowait; non-trivial = a delivery between cancel and CancelOk or >=2 candidate terminal causes for one consumer; distinct by case hash",
-        cases: |t| t.pick(1000, 25_000),
+        cases: |t| t.pick(4000, 60_000),
         threads: 16,
         strategy: strat,
         exec,
